@@ -288,6 +288,21 @@ func runC08(cfg config) {
 			edgeDecs = append(edgeDecs, base+frac, "-"+base+frac)
 		}
 	}
+	// round(p) for p > 0: small magnitudes (fewer significant digits than decimal places), ties, negative values
+	for _, d := range []string{"0.05", "0.005", "0.0449", "0.045", "0.00000005", "0.95", "0.995", "9.995", "1.25", "1.35", "2.5", "0.5", "0.05000", "123.456789", "0.000000000000000149", "1.0", "0.0"} {
+		for _, sign := range []string{"", "-"} {
+			for _, p := range []int{1, 2, 3, 5, 8, 15, 17} {
+				u := un{fmt.Sprintf("(Round %d)", p), fmt.Sprintf("%%s.round(%d)", p)}
+				runUn(decOperand(sign+d, "sysvar"), u)
+				runUn(decOperand(sign+d, pick(r, []string{"literal", "fhirDecimal"})), u)
+			}
+		}
+	}
+	for _, x := range []int32{0, 1, -1, 15, 2147483647, -2147483648} {
+		for _, p := range []int{1, 3} {
+			runUn(intOperand(x, "sysvar"), un{fmt.Sprintf("(Round %d)", p), fmt.Sprintf("%%s.round(%d)", p)})
+		}
+	}
 	for _, d := range edgeDecs {
 		if !strings.Contains(d, ".") {
 			d += ".00"
